@@ -54,10 +54,10 @@ def check(ctx, F, cfg, P="C17", clauses="all"):
         kinds.add(v.kind)
         ops = v.buf_ops
         # 1. grow first
-        good = len(ops) >= 1 and ops[0].callee == R.RESIZE and len(ops[0].args) == 2 and ops[0].args[1] == ("call", R.CAPACITY, (R.BUF,), ops[0].args[1][3] if len(ops[0].args[1]) > 3 else None)
+        good = len(ops) >= 1 and R.is_grow(m, ops[0])
         ctx.oblige(key + "|grow-first", good, "the buffer is not first grown to its full capacity", cfg=cfg, where=where)
         # 2. split second, nothing else on the buffer than grow, split, final shrink
-        shape_ok = [e.callee for e in ops[:2]] == [R.RESIZE, R.SPLIT] and len(ops) == 3 and ops[2].callee in (R.RESIZE, R.TRUNCATE)
+        shape_ok = len(ops) == 3 and R.is_grow(m, ops[0]) and ops[1] in v.split and ops[2].callee in (R.RESIZE, R.TRUNCATE)
         ctx.oblige(key + "|buffer-ops", shape_ok, "buffer operations on this path are %s, expected [grow, split_first_mut, final resize/truncate]" % [S.short_fn(e.callee) for e in ops], cfg=cfg, where=where)
         if not shape_ok:
             continue
@@ -92,7 +92,7 @@ def check(ctx, F, cfg, P="C17", clauses="all"):
     ctx.oblige("%s|frame|all-kinds" % P, kinds >= {"ok", "ok-a0", "err"}, "Response::serialize no longer has the three exits Ok, Ok&[0xA0], Err (found %s)" % sorted(kinds), cfg=cfg)
     # panicking paths: only the unwrap of split_first_mut (discharged by N >= 1: the buffer was grown to capacity first)
     for v in m.panic_paths:
-        sp_ok = len(v.split) == 1 and v.p.known.get(v.split[0].term) == S.NONE and v.buf_ops[:1] and v.buf_ops[0].callee == R.RESIZE
+        sp_ok = len(v.split) == 1 and v.p.known.get(v.split[0].term) == S.NONE and v.buf_ops[:1] and R.is_grow(m, v.buf_ops[0])
         ctx.oblige("%s|frame|panic|%s" % (P, str(v.p.done[1])[:60]), bool(sp_ok), "Response::serialize can panic at %s (%s)" % (v.p.done[1], v.p.done[2]), cfg=cfg, where=where)
     if m.panic_paths:
         ctx.note("split_first_mut().unwrap() is discharged by the property's precondition N >= 1: on every path the buffer was grown to capacity first")
@@ -150,9 +150,13 @@ def run(ctx):
             nodes = node_at(fn, ev["sp"])
             if kind == "call:core::option::Option::<T>::unwrap":
                 for x in nodes:
-                    if x.get("k") == "mcall" and x.get("callee") == "core::option::Option::<T>::unwrap" and H.strip_block(x["recv"]).get("callee") == R.SPLIT and all(v.buf_ops[:1] and v.buf_ops[0].callee == R.RESIZE for v in m.views):
+                    if x.get("k") == "mcall" and x.get("callee") == "core::option::Option::<T>::unwrap" and H.strip_block(x["recv"]).get("callee") == R.SPLIT and all(v.buf_ops[:1] and R.is_grow(m, v.buf_ops[0]) for v in m.views):
                         # every path grows the buffer to capacity before the split (clause grow-first above)
                         return "B-pre", "split_first_mut() after resize_default(capacity()) is Some for N >= 1 (the property's precondition)"
+            if kind == "call:" + R.SPLIT_AT:
+                for x in nodes:
+                    if x.get("k") == "mcall" and x.get("callee") == R.SPLIT_AT and all(v.buf_ops[:1] and R.is_grow(m, v.buf_ops[0]) and len(v.split) == 1 and v.split[0].node is x for v in m.views):
+                        return "B-pre", "split_at_mut(1) after the buffer was grown to its capacity N >= 1 (the property's precondition)"
             if kind == "assert:overflow:Add" and m.sym.arith.get(ev["sp"]):
                 # every pair of operand terms seen on the paths: a slice length or a small literal on each side
                 def small(t):
